@@ -50,6 +50,15 @@ class HistWorld(GWorld):
             return self.net.attrs["__dict__"]
         return GWorld.getattr(self, it, o, attr, node)
 
+    def cached_property_get(self, it, o, name, compute):
+        """a cached property built by a factory (`name = factory(...)` in the class body)"""
+        if o is self.net and self.cache_on:
+            d = self.net.attrs["__dict__"]
+            if name not in d:
+                d[name] = compute()
+            return d[name]
+        return compute()
+
     def isinstance_ext(self, it, o, k, node):
         if k.name.endswith("cached_property"):
             return isinstance(o, Obj) and o.kind == "cachedprop"
